@@ -40,7 +40,11 @@ def classify(path, pol):
     if os.path.dirname(path) == fd:
         # only the dictionaries of the documents of this session: <path segments joined by %>
         names = pol.get("fileDictNames")
-        return "fileDict" if names is None or os.path.basename(path) in names else "other"
+        base = os.path.basename(path)
+        pre = pol.get("fileDictPrefix")
+        if pre and base.startswith(pre) and base.endswith("%") and "%" not in base[len(pre):-1]:
+            return "fileDict"
+        return "fileDict" if names is None or base in names else "other"
     for target in (pol["userDict"], pol["stats"], fd):
         if target.startswith(path.rstrip("/") + "/"):
             return "ancestor"
@@ -120,16 +124,18 @@ def _kill_group(p):
         pass
 
 
-def run_server(mode, wd, v, pre=False):
+def run_server(mode, wd, v, pre=False, rnd=None):
     """One complete LSP session against the real binary under strace.  pre: the dictionaries and the
     statistics file exist beforehand, in states a user or another tool may have left them in."""
-    home = os.path.join(wd, f"home_{mode}" + ("_pre" if pre else ""))
+    home = os.path.join(wd, f"home_{mode}" + ("_pre" if pre else "") + (f"_r{rnd[0]}" if rnd else ""))
     docs = os.path.join(home, "docs")
     os.makedirs(docs, exist_ok=True)
     pol = {"userDict": os.path.join(home, "cfg", "harper-ls", "my_dict.txt"),
            "fileDictDir": os.path.join(home, "data", "file_dicts"),
            "stats": os.path.join(home, "data", "stats", "stats.txt")}
     pol["fileDictNames"] = {"".join(seg + "%" for seg in os.path.join(docs, name).split("/") if seg) for name, _, _ in TEXTS}
+    if rnd:
+        pol["fileDictPrefix"] = "".join(seg + "%" for seg in docs.split("/") if seg)
     if pre:
         os.makedirs(os.path.dirname(pol["userDict"]), exist_ok=True)
         os.makedirs(pol["fileDictDir"], exist_ok=True)
@@ -152,7 +158,11 @@ def run_server(mode, wd, v, pre=False):
                              stdout=subprocess.PIPE, stderr=subprocess.DEVNULL, env=env, cwd=home, start_new_session=True)
         c = lspclient.Client(p.stdout, p.stdin, settings)
         try:
-            lspclient.full_session(c, docs, TEXTS)
+            if rnd:
+                import random
+                v.cov.setdefault("random_sessions", []).append(lspclient.random_session(c, docs, random.Random(rnd[1]), rnd[2]))
+            else:
+                lspclient.full_session(c, docs, TEXTS)
             ok = True
         except Exception as ex:       # noqa: BLE001
             common.log(f"[C10] stdio session error: {ex}")
@@ -202,8 +212,8 @@ def run_server(mode, wd, v, pre=False):
     if not ok:
         # a request timed out or the pipe broke: nothing can be concluded from a half-played session
         raise common.ToolError(f"the {mode} session with harper-ls did not run to its end")
-    return ([{"ev": "Proc", "mode": mode}] + evs +
-            [{"ev": "SessionOk", "ok": {"userDict", "fileDict", "stats"} <= wrote, "wrote": sorted(wrote)}]), raw
+    persisted = True if rnd else {"userDict", "fileDict", "stats"} <= wrote     # random sessions need not touch every file
+    return ([{"ev": "Proc", "mode": mode}] + evs + [{"ev": "SessionOk", "ok": persisted, "wrote": sorted(wrote)}]), raw
 
 
 def run_lib(wd, corp):
@@ -259,6 +269,12 @@ def run(v):
         e, raw = run_server(mode, wd, v, pre)
         evs += e
         raws[mode + ("_pre" if pre else "")] = raw
+    nrand = 12 if thorough else 2
+    sentences = [json.loads(l) for l in open(corp)][:600]
+    for k in range(nrand):
+        e, raw = run_server("stdio", wd, v, pre=(k % 2 == 1), rnd=(k, v.seed * 1000 + k, sentences))
+        evs += e
+        raws[f"random{k}"] = raw
     e, raw = run_lib(wd, corp)
     evs += e
     raws["lib"] = raw
@@ -270,7 +286,7 @@ def run(v):
     consumed, rejects, _ = common.validate_trace(TRACE_TLA, TRACE_CFG, trace, "c10_t", timeout=600)
     if consumed != len(evs):
         raise common.ToolError(f"trace: consumed {consumed} of {len(evs)} events")
-    v.cov["traces_validated_against_impl"] = 4
+    v.cov["traces_validated_against_impl"] = 4 + nrand
     v.cov["evaluations"] = len(evs)
     v.cov["distinct_nontrivial"] = len({(x.get("call"), x.get("pclass"), x.get("family"), x.get("name")) for x in evs})
     v.cov["samples"] = [x for x in evs if x["ev"] == "Sys"][:6] + [x for x in evs if x["ev"] == "Dep"][:3]
